@@ -12,7 +12,35 @@ pub fn lanes() -> Vec<Lane> {
         Lane { name: "gen", count: |c| if c.thorough() { 1_000_000 } else { 40_000 }, run: gen_lane },
         Lane { name: "wellformed", count: |c| if c.thorough() { 1_000_000 } else { 40_000 }, run: wellformed_lane },
         Lane { name: "corpus", count: |c| if c.thorough() { 30_000 } else { 2_000 }, run: corpus_lane },
+        Lane { name: "cr-line-ends", count: |c| if c.thorough() { 400_000 } else { 30_000 }, run: cr_lane },
     ]
+}
+
+/// Generated documents in which some value lines that are followed by a continuation line end in a lone carriage
+/// return (both readers take CR for a line end). Whenever both accept, the comparison of C06 applies.
+fn cr_lane(ctx: &mut Ctx, _idx: u64) {
+    let mut r = ctx.rng();
+    let d = gen::gen_doc(&mut r, &GOpts::default());
+    let b = d.text.as_bytes();
+    let mut t = String::with_capacity(d.text.len());
+    let mut changed = 0;
+    for (i, ch) in d.text.char_indices() {
+        if ch == '\n' && matches!(b.get(i + 1), Some(b' ') | Some(b'\t')) && r.chance(1, 2) {
+            t.push('\r');
+            changed += 1;
+        } else {
+            t.push(ch);
+        }
+    }
+    if changed == 0 {
+        ctx.count("skipped:no-continuation-line");
+        return;
+    }
+    if let Some((a, b)) = compare(ctx, &t, "cr-before-continuation") {
+        ctx.count(if a && b { "both-accept" } else { "not-both-accept" });
+    }
+    ctx.nontrivial(t.as_bytes());
+    ctx.sample(|| json!({"input": clip(&t), "cr_line_ends": changed}));
 }
 
 type Lines = Vec<Vec<(String, Vec<String>)>>;
